@@ -9,10 +9,41 @@
 (* bounds C06:, serialization C09:; unprefixed clauses are C04's.          *)
 (***************************************************************************)
 EXTENDS TraceHll
-VARIABLE un
+VARIABLES un,
+          ug      \* tier B: shadow gadget per union (HllUnionMech), only maintained when CheckDesign
 U == INSTANCE HllUnion WITH UIds <- {}, LgMaxKs <- {}, UCoupons <- {}, Inputs <- {}, UBigs <- {}
-tuvars == <<obj, l, hist, blob, un>>
-SkUnchanged == UNCHANGED <<obj, hist, blob>>
+tuvars == <<obj, l, hist, blob, sh, un, ug>>
+SkUnchanged == UNCHANGED <<obj, hist, blob, sh>>
+
+(* ---------------- tier B: the union's gadget as the code keeps it ---------------- *)
+\* a coupon-mode sketch of 2^lg slots becomes an HLL array at this many distinct coupons (list of 8; for lg >= 8 a set that is
+\* promoted when 4 * count > 3 * 2^(lg - 3))
+RealPromoteCount(lg) == IF lg < 8 THEN 8 ELSE 3 * 2^(lg - 5) + 1
+G == INSTANCE HllUnionMech WITH PromoteCount <- RealPromoteCount, FixedIsEmpty <- TRUE, FixedReset <- TRUE
+NoG == [lg |-> 0 - 1]
+GSup(x) == x.lg >= 0
+UgSet(f) == IF CheckDesign THEN f ELSE ug
+\* lg size of a coupon hash set holding n coupons (starts at 32 ints, doubles when 4 * n > 3 * size)
+RECURSIVE SetLgOf(_, _)
+SetLgOf(n, lg) == IF 4 * n <= 3 * 2^lg THEN lg ELSE SetLgOf(n, lg + 1)
+GScalars(e, x) == (CheckDesign /\ GSup(x)) =>
+                    /\ Chk("B:gadget-is_empty", e.empty = G!IsEmpty(x))
+                    /\ Chk("B:gadget-lg_k", e.lgk = x.lg)
+\* what get_result(t) exposes of the gadget: p = physical state of the returned sketch's own image
+GResultOK(p, t, x) == (CheckDesign /\ GSup(x) /\ p.m >= 0) =>
+  LET n == Cardinality(x.cs) IN
+  /\ Chk("B:gadget-mode", p.m = IF x.hll THEN 2 ELSE IF n < 8 THEN 0 ELSE 1)
+  /\ (~x.hll /\ p.m < 2) => Chk("B:gadget-coupon-count", p.cnt = n)
+  /\ (~x.hll /\ p.m = 1) => Chk("B:gadget-set-lg-size", p.lg = SetLgOf(n, 5))
+  /\ (x.hll /\ p.m = 2) =>
+       \* HLL_8 without pending rebuild is a plain copy of the gadget (stored counters); otherwise the registers are replayed:
+       \* HLL_6 / HLL_8 count the zero slots, HLL_4 keeps the true minimum and its multiplicity
+       Chk("B:gadget-counters",
+           IF t = 8 /\ ~x.rb THEN <<p.cm, p.nac>> = <<x.cmin, x.nac>>
+           ELSE IF t # 4 THEN <<p.cm, p.nac>> = <<0, G!Zeros(x.reg)>>
+           ELSE LET V == {x.reg[s] : s \in DOMAIN x.reg}
+                    mn == CHOOSE v \in 0..63 : v \in V /\ \A w \in 0..(v - 1) : w \notin V
+                IN <<p.cm, p.nac>> = <<mn, Cardinality({s \in DOMAIN x.reg : x.reg[s] = mn})>>)
 
 \* side-effect-free getters of the union, logged on every union event
 UScalars(e, o) == /\ Chk("union-is_empty", e.empty = o.empty)
@@ -26,30 +57,39 @@ UBoundsOK(r, o, hllmode) ==
   /\ Chk("C06:coupon-estimate", ~hllmode => LET n == Cardinality(o.fed) IN r.estF >= n /\ r.estF <= n + n \div 1000 + 1)
   /\ Chk("C06:empty-estimate", o.empty => r.estF = 0)
 
-TUBegin == TBegin /\ un' = <<>>
+TUBegin == TBegin /\ un' = <<>> /\ ug' = <<>>
 TUNew == IsEvent("UNew") /\ LET e == Log[l] IN
           /\ U!UNew(e.u, e.lgmaxk, e.lgmaxk > DenseMaxLgK) /\ UScalars(e, un'[e.u]) /\ SkUnchanged
+          /\ ug' = UgSet((e.u :> IF e.lgmaxk <= ShadowMaxLgK THEN G!EmptyList(e.lgmaxk) ELSE NoG) @@ ug) /\ GScalars(e, ug'[e.u])
 TUUpdate == IsEvent("UUpdate") /\ LET e == Log[l]  sv == obj[e.src]  o == un[e.u]
                                       \* an empty HLL-mode input: did the implementation lower its precision? (left open by the statement)
                                       counted == IF sv.empty THEN sv.mode = HLL /\ sv.lgK < U!LgStar(o) /\ e.lgk = sv.lgK
                                                  ELSE sv.mode = HLL IN
           /\ U!UpdateSketch(e.u, sv, counted) /\ UScalars(e, un'[e.u]) /\ SkUnchanged
+          /\ ug' = UgSet([ug EXCEPT ![e.u] = IF sv.empty \/ ~GSup(@) THEN @
+                                             ELSE IF sv.big \/ sv.lgK > ShadowMaxLgK \/ ~Sup(sh[e.src]) THEN NoG   \* (results fed back: physical counters unknown)
+                                             ELSE G!GUpdate(@, G!FromInput(sv), e.rvalue, sv.type = 8, un[e.u].lgMaxK)])
+          /\ GScalars(e, ug'[e.u])
 TUItem == IsEvent("UItem") /\ LET e == Log[l] IN
           /\ U!UpdateItem(e.u, <<e.c[1], e.c[2]>>) /\ UScalars(e, un'[e.u]) /\ SkUnchanged
+          /\ ug' = UgSet([ug EXCEPT ![e.u] = IF GSup(@) THEN G!CouponUpd(@, <<e.c[1], e.c[2]>>) ELSE @]) /\ GScalars(e, ug'[e.u])
 TUItemIgnored == IsEvent("UItemIgnored") /\ LET e == Log[l] IN
-          /\ U!UpdateIgnoredItem(e.u) /\ UScalars(e, un[e.u]) /\ SkUnchanged
+          /\ U!UpdateIgnoredItem(e.u) /\ UScalars(e, un[e.u]) /\ SkUnchanged /\ UNCHANGED ug
 TUReset == IsEvent("UReset") /\ LET e == Log[l] IN
           /\ U!UReset(e.u) /\ UScalars(e, un'[e.u]) /\ SkUnchanged
+          /\ ug' = UgSet([ug EXCEPT ![e.u] = IF GSup(@) THEN G!GReset(@, un[e.u].lgMaxK) ELSE @]) /\ GScalars(e, ug'[e.u])
 TUObs == IsEvent("UObs") /\ LET e == Log[l] IN
-          /\ U!Observe(e.u) /\ UScalars(e, un[e.u]) /\ SkUnchanged
+          /\ U!Observe(e.u) /\ UScalars(e, un[e.u]) /\ SkUnchanged /\ UNCHANGED ug /\ GScalars(e, ug[e.u])
 TUEst == IsEvent("UEst") /\ LET e == Log[l]  o == un[e.u] IN
           /\ U!Observe(e.u) /\ UScalars(e, o)
           /\ Chk("C06:bounds", /\ e.lb[3] <= e.lb[2] /\ e.lb[2] <= e.lb[1] /\ e.lb[1] <= e.est
                                /\ e.est <= e.ub[1] /\ e.ub[1] <= e.ub[2] /\ e.ub[2] <= e.ub[3])
           /\ Chk("C06:empty-estimate", o.empty => e.estF = 0)
           /\ SkUnchanged
+          \* the estimate getters run check_rebuild_kxq_cur_min on the gadget
+          /\ ug' = UgSet([ug EXCEPT ![e.u] = IF GSup(@) THEN G!GCheckRebuild(@) ELSE @]) /\ GScalars(e, ug'[e.u])
 \* get_result(type): ResultDef
-TUResult == IsEvent("UResult") /\ LET e == Log[l]  o == un[e.u]  r == e.r  lg == U!LgStar(o) IN
+ResultChecks(e) == LET o == un[e.u]  r == e.r  lg == U!LgStar(o) IN
           /\ U!Observe(e.u) /\ UScalars(e, o)
           /\ Chk("result-type", r.type = e.type /\ r.typeApi = e.type)
           /\ Chk("result-lg_k", r.lgk = lg /\ r.lgkApi = lg)
@@ -70,7 +110,17 @@ TUResult == IsEvent("UResult") /\ LET e == Log[l]  o == un[e.u]  r == e.r  lg ==
                                                     ELSE {<<x - 1, r.regs[x]>> : x \in {y \in DOMAIN r.regs : r.regs[y] > 0}},
                                              coup |-> IF r.cmode = HLL THEN {} ELSE ToSet(r.coup)]))
           /\ UBoundsOK(r, o, r.cmode = HLL)
-          /\ SkUnchanged
+          /\ (Has(r, "ph") => GResultOK(r.ph, e.type, ug[e.u])) /\ GScalars(e, ug[e.u])
+TUResult == IsEvent("UResult") /\ ResultChecks(Log[l]) /\ SkUnchanged /\ UNCHANGED ug
+\* a result kept as a sketch of its own (fed to further unions): its contract value is the union's ghost at that moment
+TUResultAs == IsEvent("UResultAs") /\ LET e == Log[l]  o == un[e.u]  r == e.r IN
+          /\ ResultChecks(e)
+          /\ obj' = (e.dst :> [lgK |-> U!LgStar(o), type |-> e.type, full |-> r.full, mode |-> r.mode,
+                               fed |-> IF o.big THEN o.fed \cup o.sp ELSE IF r.mode = HLL THEN {} ELSE o.fed,
+                               top |-> o.top, empty |-> o.empty, big |-> o.big]) @@ obj
+          /\ hist' = (e.dst :> [done |-> <<<<l>>>>, cur |-> <<>>]) @@ hist      \* an order of its own
+          /\ sh' = ShSet((e.dst :> NoSh) @@ sh)
+          /\ UNCHANGED <<blob, ug>>
 \* the unions of a segment side by side: equal contract states => equal estimates, whatever the order of presentation,
 \* the observers called in between and the lvalue / rvalue choice
 TUCompare == IsEvent("UCompare") /\ LET e == Log[l] IN
@@ -80,10 +130,12 @@ TUCompare == IsEvent("UCompare") /\ LET e == Log[l] IN
                   /\ (oa.hllLg = {}) = (ob.hllLg = {}) /\ Class(a.mode) = Class(b.mode))
                  => /\ Chk("order-independent-estimate", a.cest = b.cest)
                     /\ Chk("order-independent-result-estimate", a.rcest = b.rcest)
-          /\ UNCHANGED <<obj, hist, blob, un>>
+          \* get_composite_estimate of every union ran check_rebuild
+          /\ ug' = UgSet([u \in DOMAIN ug |-> IF GSup(ug[u]) /\ \E n \in DOMAIN e.objs : e.objs[n].u = u THEN G!GCheckRebuild(ug[u]) ELSE ug[u]])
+          /\ UNCHANGED <<obj, hist, blob, sh, un>>
 
-TUInit == TInit /\ un = <<>>
-TUNext == TUBegin \/ (SkNext /\ UNCHANGED un)
-          \/ TUNew \/ TUUpdate \/ TUItem \/ TUItemIgnored \/ TUReset \/ TUObs \/ TUEst \/ TUResult \/ TUCompare
+TUInit == TInit /\ un = <<>> /\ ug = <<>>
+TUNext == TUBegin \/ (SkNext /\ UNCHANGED <<un, ug>>)
+          \/ TUNew \/ TUUpdate \/ TUItem \/ TUItemIgnored \/ TUReset \/ TUObs \/ TUEst \/ TUResult \/ TUResultAs \/ TUCompare
 TUSpec == TUInit /\ [][TUNext]_tuvars
 ====
